@@ -117,8 +117,10 @@ def run_case(spec):
         at_stop = next(e for e in evs if e["seq"] >= stop_seq)
         remaining = at_stop["pulled"] < N
         for e in evs:
-            if e["seq"] > stop_seq and e["kind"] == "pull":
-                raise Violation("item %d taken from the input after %s (seq %d > %d) (%s)" % (e["i"], why, e["seq"], stop_seq, where),
+            # judged at the ENTRY into the iterator: a __next__ that the harness itself kept paused across the stop
+            # instant was entered before it
+            if e["seq"] > stop_seq and e["kind"] == "pull_enter" and e["i"] < N:
+                raise Violation("item %d requested from the input after %s (seq %d > %d) (%s)" % (e["i"], why, e["seq"], stop_seq, where),
                                 signature=["pull-after-stop", "failure" if "failing" in why else "close"])
     if rec["outcome"] == "hang":
         raise Inconclusive("hang (judged by C01/C04/C16)")
